@@ -239,6 +239,9 @@ func genProgram(r *lib.RNG) []byte {
 	return []byte(g.Program())
 }
 
+// smallLen bounds the exhaustive small-scope enumeration (4: 168 420 strings; 5: 3.4 million).
+var smallLen = 4
+
 func (w *worker) run(quota int, nWorkers int, sampleStride int) {
 	// seeds first, under every in-process configuration (shared out between the workers)
 	for i := 0; i < w.nSeeds; i++ {
@@ -252,6 +255,33 @@ func (w *worker) run(quota int, nWorkers int, sampleStride int) {
 		if len(w.pool[i]) <= 2048 {
 			w.samples = append(w.samples, w.pool[i])
 		}
+	}
+	// exhaustive small scope: every string of length ≤ smallLen over the bytes the scanner treats
+	// specially (comment and string delimiters, CR/LF, escapes, digits and prefixes, brackets, NUL,
+	// invalid UTF-8), shared out between the workers
+	{
+		alpha := []byte{'/', '*', '\r', '\n', '`', '"', '\'', '\\', 'a', '0', '.', 'x', '_', '{', '(', ' ', 0x00, 0xff, 'e', '+'}
+		idx := 0
+		var rec func(cur []byte, left int)
+		rec = func(cur []byte, left int) {
+			if atomic.LoadInt32(&stopAll) != 0 {
+				return
+			}
+			if len(cur) > 0 {
+				idx++
+				if idx%nWorkers == w.id {
+					w.streams["exhaustive-small"]++
+					w.eval(append([]byte{}, cur...), Config{Kind: "bare"}, "exhaustive-small")
+				}
+			}
+			if left == 0 {
+				return
+			}
+			for _, c := range alpha {
+				rec(append(cur, c), left-1)
+			}
+		}
+		rec(nil, smallLen)
 	}
 	for n := 0; n < quota && atomic.LoadInt32(&stopAll) == 0; n++ {
 		r := w.rng.Fork()
@@ -456,6 +486,7 @@ func main() {
 		res.Distribution["seeds:"+k] = v
 	}
 	nW := flags.Scale(8, 16)
+	smallLen = flags.Scale(4, 5)
 	total := flags.Scale(20000, 2000000)
 	stride := flags.Scale(8, 60) // model sample: every stride-th input of each worker
 	rng := lib.NewRNG(flags.Seed)
